@@ -19,7 +19,7 @@ from .. import units, guards, effects
 
 MANIFEST = {
     "level": "other",
-    "technique": "static analysis: symbolic evaluation and term matching for the anomaly relations, polynomial normal form for the vis-viva / phase / node-passage identities with numeric constant relations checked to a stated tolerance, decision table of the mean-anomaly reduction on every linear piece (sign factor of E and anomaly handed to the solver), refusal conditions executed on every class of (e, a) inside the domain, interval bound of both orbit-length closed forms against the AGM value of the elliptic integral, unit inference; the solver loop unrolled to a closed term (the exit test compares a step of constant magnitude with a number) and that term proved, summand by summand, to be the n-step bisection of E - e sin E = m",
+    "technique": "static analysis: symbolic evaluation and term matching for the anomaly relations, polynomial normal form for the vis-viva / phase / node-passage identities with numeric constant relations checked to a stated tolerance, decision table of the mean-anomaly reduction on every linear piece (sign factor of E and anomaly handed to the solver), refusal conditions executed on every class of (e, a) inside the domain, interval bound of both orbit-length closed forms against the AGM value of the elliptic integral, unit inference; the solver loop unrolled to a closed term (the exit test compares a step of constant magnitude with a number) and that term proved, summand by summand, to be the n-step bisection of E - e sin E = m; the Angle / Epoch operator semantics the evaluator assumes are verified (operator conformance, operands never written)",
     "text": "The closed-form relations of the property (true anomaly, reciprocal factor in the node passage, vis-viva products, k = (1 + cos i)/2, Kepler's equation and radius in the node passage, Barker's constant) are decided symbolically for all inputs. The mean anomaly is shown to be reduced modulo 2 pi and folded to [0, pi] with E = +-e0 accordingly for either sign of M and any number of turns, and no closed-form routine refuses arguments inside the domain (circular orbit included). That Kepler's equation is solved is proved for every e in [0, 1) and every M at once, in exact real arithmetic: unrolled, the solver's result is pi/2 plus n steps pi/2^(k+1), each with the sign of m - (E_prev - e sin E_prev) at the previous partial sum and the same reduced anomaly m throughout - a bisection of an increasing function from the bracket [0, pi] - so |E - E*| <= pi/2^(n+1) and the residual is at most 360/2^(n+1) degrees (1.05e-8 with today's 34 steps, below the 5e-8 asked); another iteration scheme is reported as not decided, a bisection that stops an order of magnitude too early as a violation. Float rounding inside the loop and the half-revolution clause at runtime are not decided; the orbit length is decided as far as both closed forms staying within [2 pi b, 2 pi a] and within 1e-4 of the elliptic integral up to the switch.",
     "note": "Trusted: term/polynomial engine; Gaussian constant k = 0.01720209895 (0.9856076686 deg/day). Trusted: monotonicity of E - e sin E for e < 1 and bracket halving (textbook bisection argument, stated in the rule). Undecided: float rounding in the loop, orbit length bounds and continuity at e = 0.95.",
 }
